@@ -3,6 +3,7 @@ import warnings
 from collections.abc import Iterable
 
 from .vector import Vector
+from .alias_tracker import _ALIAS_TRACKER
 
 from .naming import _sanitize_user_name
 
@@ -192,6 +193,12 @@ class Table(Vector):
 		return super(Vector, cls).__new__(cls)
 
 	def __init__(self, initial=(), dtype=None, name=None, as_row=False):
+		# A Table created through Vector(...) is initialised twice (Vector.__new__
+		# returns the instance and Python then calls __init__ again): forget the
+		# registration of the column tuple that is about to be replaced
+		if self._underlying is not None:
+			_ALIAS_TRACKER.unregister(self, id(self._underlying))
+
 		# Handle dict initialization {name: values, ...}
 		if isinstance(initial, dict):
 			# Create Vectors with names from dict keys
